@@ -15,6 +15,6 @@ for d in sorted(glob.glob(os.path.join(HERE, "seeded", "*", ""))):
 table = "| seeded change | round | needs to manifest | caught by (quick; witnesses, capped at 10) | |\n|---|---|---|---|---|\n" + "\n".join(rows)
 p = os.path.join(HERE, "DESIGN.md")
 s = open(p).read()
-s = re.sub(r"<!-- SEED-TABLE -->.*?<!-- /SEED-TABLE -->", "<!-- SEED-TABLE -->\n" + table + "\n<!-- /SEED-TABLE -->", s, flags=re.S)
+s = re.sub(r"<!-- SEED-TABLE -->.*?<!-- /SEED-TABLE -->", lambda _m: "<!-- SEED-TABLE -->\n" + table + "\n<!-- /SEED-TABLE -->", s, flags=re.S)
 open(p, "w").write(s)
 print(n, "seeded changes,", missed, "initially missed")
